@@ -1,0 +1,6 @@
+//go:build !verif
+
+package iavl
+
+// verifYield is a no-op unless the library is built with the tag "verif".
+func verifYield(string) {}
